@@ -45,7 +45,7 @@ def fixed_examples():
             ("two_triangles@wall", translate(eg.two_triangles(), (0.62, 0.71))), ("tri_square_pent@corner", translate(eg.tri_square_pent(), (0.55, 0.6))),
             ("square33-patch@wall", translate(cut_boundaries(eg.square_lattice(3, 3)), (0.5, 0.0))),
             ("honey3-island", island(eg.honeycomb_lattice(3), 4)), ("sliver_wheel", sliver_wheel(r0, 2e-7, False)), ("sliver_wheel-swapped", sliver_wheel(r0, 2e-7, True)),
-            ("sliver_wheel-1e-8", sliver_wheel(r0, 1e-8, True))]
+            ("sliver_wheel-1e-8", sliver_wheel(r0, 1e-8, True)), ("sliver_wheel-5e-11", sliver_wheel(r0, 5e-11, True)), ("sliver_wheel-2e-11", sliver_wheel(r0, 2e-11, False))]
     for n in (3, 5):
         a, b = mirror_rows(n)
         out += [(f"row{n}-top", a), (f"row{n}-bottom", b)]
@@ -223,9 +223,9 @@ def translate(l, t):
 
 
 def sliver_wheel(rng, delta=None, swap=None):
-    """a wheel whose hub has two spokes leaving in almost - not exactly - the same direction (1e-8 .. 1e-6 rad apart, far above the 1e-9 genericity threshold),
+    """a wheel whose hub has two spokes leaving in almost - not exactly - the same direction (2e-11 .. 1e-6 rad apart; all edges are long, so the genericity margin for them is 3e-12 rad, see props/c01.min_gap),
     numbered either way round: a legitimate embedding in which one triangle of the fan is a thin sliver"""
-    delta = 10.0 ** rng.uniform(-8, -6) if delta is None else delta
+    delta = 10.0 ** rng.uniform(-10.8, -6) if delta is None else delta
     swap = bool(rng.integers(2)) if swap is None else swap
     k = int(rng.integers(5, 8))
     gaps = rng.uniform(0.6, 1.2, size=k); gaps *= (2 * np.pi - 0.9) / gaps.sum()
